@@ -9,6 +9,7 @@ R3 Transaction::validate: a false validate_routing_path reaches no `return true`
 from .. import gate
 from ..expr import Chaser, call_name, has_call, has_field, show
 from ..report import Finding, Result
+from ..paths import Explorer, describe_path
 from ._blockvalidate import CORE, BlockValidate
 
 WORK_FN = "BurnFee::return_routing_work_needed_to_produce_block_in_nolan"
@@ -105,6 +106,23 @@ def run(prog, tier, extra=None):
             res.add(Finding(R3, "C08.routing-path|ungated", "Transaction::validate can return true although validate_routing_path returned false", tv.loc(s["bb"])))
         else:
             res.sample({"rule": R3, "site": tv.loc(s["bb"]), "verdict": "gates"})
+    # every user-originated type goes through it: routing work is summed over all transactions of a block whatever their type,
+    # so a type whose path is never checked (golden ticket, bound, ...) lets the block producer credit himself with forged hops
+    rp_sites = {bb for bb, t in tv.calls() if (call_name(t) or "").endswith("Transaction::validate_routing_path")}
+    if rp_sites:
+        res.instance(R3)
+        tch = Chaser(tv)
+        RP_EXEMPT = {"Fee", "SPV", "BlockStake", "ATR", "Issuance"}
+        exempt_rp, rp_priv = gate.enum_compare_edges(prog, tv, tch, "transaction::TransactionType", "transaction_type", RP_EXEMPT)
+        found_rp = Explorer(tv).explore(0, deleted_edges=exempt_rp, blocked=rp_sites, accept=gate.make_accept(tv, return_true=True))
+        if found_rp:
+            kind, path = sorted(found_rp.items())[0]
+            res.add(Finding(R3, "C08.routing-path|type-bypass", "Transaction::validate can return true for a user-originated transaction type without calling validate_routing_path: "
+                            "its hops count as routing work (Block::generate sums every transaction) although their signatures were never checked",
+                            tv.loc(path[-1]), {"path": describe_path(tv, path)}))
+        else:
+            res.sample({"rule": R3, "sites": [tv.loc(x) for x in sorted(rp_sites)], "exempt_types": sorted(set(v for _, v in rp_priv)),
+                        "verdict": "every other accept path calls validate_routing_path"})
     # and the path check itself verifies every hop signature and contiguity: the per-hop closure's verdicts gate
     vr = [x for x in prog.all_bodies() if x.path.startswith(CORE + "consensus::transaction::Transaction::validate_routing_path")]
     for body in vr:
@@ -161,7 +179,7 @@ def run(prog, tier, extra=None):
         if not ver["sites"]:
             res.add(Finding(R3, "C08.routing-path|no-hop-verify", "validate_routing_path's per-hop check does not verify hop.sig against hop.from", body.loc(0)))
             continue
-        from ..paths import Explorer
+        pass
         found = Explorer(body).explore(0, deleted_edges=ver["true"], accept=gate.make_accept(body, return_true=True))
         if found:
             kind, pth = sorted(found.items())[0]
